@@ -80,6 +80,6 @@ def sweep(tier):
 
 
 PARTS = [
-    Part('random', 'hyp', run_case, strategy=cases(), quick=2000, thorough=320000, quick_shards=4),
+    Part('random', 'hyp', run_case, strategy=cases(), quick=6000, thorough=320000, quick_shards=4),
     Part('sweep', 'sweep', run_case, sweep=sweep, quick_shards=4, exhaustive=True),
 ]
